@@ -28,6 +28,28 @@ def run(fx, rep, tier):
     rule_board3(fx, rep)
     rule_editpair(fx, rep)
     rule_forward(fx, rep)
+    rule_report(fx, rep)
+
+
+def rule_report(fx, rep):
+    """"Every observable aspect" of the position after a move is observed through the FEN writer (`d fen`, Game::to_fen): a
+    writer that prints a right, the side, the target or a clock from the wrong field shows a position the engine does not
+    hold. The writer-side clauses of C06 (letter tables, scalar fields) are re-reported here as a premise (seed C02-4a)."""
+    import core
+    import pC06
+    sub = type(rep)(rep.prop, rep.tier)
+    q = core.QUIET
+    core.QUIET = True
+    try:
+        pC06.rule_tables(fx, sub)
+        pC06.rule_fields(fx, sub)
+    finally:
+        core.QUIET = q
+    for v in sub.violations:
+        rep.violation("C02-REPORT", v["key"].replace("C06-", "C02-REPORT/"), v["msg"] + " (the reported position then differs from the one held)", v["site"])
+    rep.obligations += sub.obligations
+    rep.discharged += sub.discharged
+    rep.rule("C02-REPORT", sub.obligations, 5, not sub.violations, "FEN writer tables and fields (shared with C06-TABLES / C06-FIELDS)")
 
 
 # ---- C02-UNDO ------------------------------------------------------------------------------
